@@ -4,8 +4,10 @@ in-process: click.testing.CliRunner on ascmhl.commands.<cmd> (or the cli groups)
 uncaught exception, if any (an internal error = non-SystemExit exception = traceback + exit 1 for a user).
 sub-process: the same through `python -m vf.cli_entry` or the console scripts."""
 import os
+import signal
 import subprocess
 import sys
+import threading
 import time
 
 from . import env
@@ -119,6 +121,15 @@ def _respell(cmd, argv, cwd):
 
 
 VERBOSE = {"rng": None, "rate": 0.15}
+HANG_SECONDS = 120.0
+
+
+class CommandHang(Exception):
+    """an in-process command did not return within HANG_SECONDS (pure-Python endless loop): reported as internal error"""
+
+
+def _hang(signum, frame):
+    raise CommandHang("command still running after %.0f s" % HANG_SECONDS)
 
 
 def run(cmd, argv, cwd=None):
@@ -132,9 +143,16 @@ def run(cmd, argv, cwd=None):
     if cwd:
         os.chdir(cwd)
     t0 = time.monotonic()
+    armed = False
     try:
+        if threading.current_thread() is threading.main_thread():
+            signal.signal(signal.SIGALRM, _hang)
+            signal.setitimer(signal.ITIMER_REAL, HANG_SECONDS)
+            armed = True
         res = r.invoke(CMDS[cmd], argv, catch_exceptions=True)
     finally:
+        if armed:
+            signal.setitimer(signal.ITIMER_REAL, 0)
         if cwd:
             os.chdir(old)
     exc = res.exception
